@@ -9,6 +9,7 @@ package verifsim
 
 import (
 	"math/rand/v2"
+	"os"
 	"sort"
 	"time"
 )
@@ -24,17 +25,18 @@ type Gen struct {
 	sent []int // action indexes of delivered datagrams (dup candidates)
 	rich bool
 	// per-profile toggles
-	perioOK   bool
-	dupCreate bool
-	canonical bool // canonical child order (FAR id first etc.)
-	slotGen   map[[2]int]int
-	fdPool    []*FlowDescIntent
-	stopAt    int
-	between   int
-	pending   []func() (Action, bool) // the rest of a composite scenario
-	midStop   bool
+	perioOK    bool
+	dupCreate  bool
+	canonical  bool // canonical child order (FAR id first etc.)
+	slotGen    map[[2]int]int
+	fdPool     []*FlowDescIntent
+	stopAt     int
+	between    int
+	pending    []func() (Action, bool) // the rest of a composite scenario
+	midStop    bool
 	drainFirst bool
-	mass      int // >0: many sessions with 8 periodic URRs of one period (batch limit)
+	wide       map[string][]uint32 // wide-ids runs: the id standing for the i-th small id, per kind
+	mass       int                 // >0: many sessions with 8 periodic URRs of one period (batch limit)
 	massPeriod uint32
 }
 
@@ -257,6 +259,12 @@ func profileConfig(p string, seed uint64) RunConfig {
 		// where the hook's counter would order the goroutines it parks
 		c.LogLevel = pick(r, "debug", "trace")
 		c.LogYield = pick(r, 10, 30, 60)
+	}
+	if w := os.Getenv("VERIF_WIDE_IDS"); p != "C20" && (seed%4 == 2 && w != "0" || w == "1") { // the variable: trials only
+		// identifiers are identifiers: one run in four uses rule ids at the boundaries of
+		// their field widths (255/256, 32767/32768, 65535/65536, 2^24, 2^31, 2^32-1) instead
+		// of 1..4 (Gen.wid)
+		c.WideIDs = true
 	}
 	if (p == "C15" || p == "C03") && seed%8 == 3 && len(c.Faults) == 0 && c.KernLatency == 0 && c.LogYield == 0 {
 		// the periodic server kept inside one tick while registrations change and further
@@ -553,12 +561,63 @@ func (g *Gen) perm(n int) []int {
 
 var idRange = map[string]int{"pdr": 4, "far": 3, "qer": 2, "urr": 3, "bar": 2}
 
+var idBits = map[string]uint{"pdr": 16, "far": 32, "qer": 32, "urr": 32, "bar": 8}
+
+// wid maps the i-th id (1-based) of the tiny per-kind range to the id this run uses for it.
+// Most runs use i itself; a "wide ids" run (RunConfig.WideIDs) draws, once per run and kind,
+// distinct values at the boundaries of the field's width (255/256, 32767/32768, 65535/65536,
+// 2^24, 2^31, 2^32-1, ...): ids are identifiers, their magnitude must not matter.
+func (g *Gen) wid(kind string, i int) uint32 {
+	if !g.s.cfg.WideIDs {
+		return uint32(i)
+	}
+	if g.wide == nil {
+		g.wide = map[string][]uint32{}
+		r := rand.New(rand.NewPCG(g.s.cfg.Seed, 0x1d5))
+		for _, k := range []string{"pdr", "far", "qer", "urr", "bar"} {
+			bits := idBits[k]
+			max := uint64(1)<<bits - 1
+			seen := map[uint32]bool{}
+			var tab []uint32
+			for len(tab) < idRange[k] {
+				var v uint64
+				switch r.IntN(6) {
+				case 0:
+					v = max - uint64(r.IntN(3))
+				case 1:
+					v = uint64(1)<<(bits-1) - 1 + uint64(r.IntN(3))
+				case 2, 3:
+					b := uint(8)
+					if bits > 8 {
+						b = uint(pick(r, 8, 15, 16, 24, 31))
+						if b >= bits {
+							b = bits - 1
+						}
+					}
+					v = uint64(1)<<b - 1 + uint64(r.IntN(3))
+				default:
+					v = r.Uint64() & max
+				}
+				v &= max
+				// clear of the small range (scenario code uses small literal ids) and of 0
+				if v <= 64 && bits > 8 || v <= 8 || seen[uint32(v)] {
+					continue
+				}
+				seen[uint32(v)] = true
+				tab = append(tab, uint32(v))
+			}
+			g.wide[k] = tab
+		}
+	}
+	return g.wide[kind][i-1]
+}
+
 func (g *Gen) someIDs(kind string, max int) []uint32 {
 	n := g.intn(max + 1)
 	var out []uint32
 	seen := map[uint32]bool{}
 	for i := 0; i < n; i++ {
-		id := uint32(1 + g.intn(idRange[kind]))
+		id := g.wid(kind, 1+g.intn(idRange[kind]))
 		if seen[id] {
 			continue
 		}
@@ -633,14 +692,14 @@ func (g *Gen) rule(kind string, id uint32, update bool) RuleIntent {
 			r.OHR = u8p(uint8(g.intn(6)))
 		}
 		if opt() {
-			r.FARID = u32p(uint32(1 + g.intn(idRange["far"])))
+			r.FARID = u32p(g.wid("far", 1+g.intn(idRange["far"])))
 		}
 		if !update || g.chance(0.5) {
 			r.QERIDs = g.someIDs("qer", 2)
 			r.URRIDs = g.someIDs("urr", 3)
 			if update && len(r.URRIDs) == 0 {
 				// an Update PDR without URR IDs is ambiguous (unchanged vs emptied): always name one
-				r.URRIDs = []uint32{uint32(1 + g.intn(idRange["urr"]))}
+				r.URRIDs = []uint32{g.wid("urr", 1+g.intn(idRange["urr"]))}
 			}
 		}
 	case "far":
@@ -689,7 +748,7 @@ func (g *Gen) rule(kind string, id uint32, update bool) RuleIntent {
 			r.FP = fp
 		}
 		if g.chance(0.3) {
-			r.BARID = u8p(uint8(1 + g.intn(idRange["bar"])))
+			r.BARID = u8p(uint8(g.wid("bar", 1+g.intn(idRange["bar"]))))
 		}
 	case "qer":
 		if opt() {
@@ -754,7 +813,7 @@ func (g *Gen) rule(kind string, id uint32, update bool) RuleIntent {
 			// usage of this URR is also to be reported when a linked one reports (LIUSA):
 			// links to any id of the tiny range, itself included, so cycles come up
 			for i, n := 0, 1+g.intn(2); i < n; i++ {
-				r.Linked = append(r.Linked, uint32(1+g.intn(idRange["urr"])))
+				r.Linked = append(r.Linked, g.wid("urr", 1+g.intn(idRange["urr"])))
 			}
 		}
 		if g.chance(0.5) {
@@ -860,13 +919,13 @@ func (g *Gen) estMsg(m *SMF, slot int) *MsgIntent {
 		}
 		ids := g.rng.Perm(idRange[kind])
 		for i := 0; i < n; i++ {
-			in.Create = append(in.Create, g.rule(kind, uint32(1+ids[i]), false))
+			in.Create = append(in.Create, g.rule(kind, g.wid(kind, 1+ids[i]), false))
 		}
 	}
 	if g.mode == "wild" && g.chance(0.3) {
 		k := pick(g.rng, kinds...)
 		if k != "bar" {
-			in.Create = append(in.Create, g.rule(k, uint32(1+g.intn(idRange[k])), false))
+			in.Create = append(in.Create, g.rule(k, g.wid(k, 1+g.intn(idRange[k])), false))
 		}
 	}
 	return in
@@ -885,15 +944,15 @@ func (g *Gen) modMsg(m *SMF, slot int, x *MSess) *MsgIntent {
 		}
 		var id uint32
 		if g.mode == "wild" || x == nil {
-			id = uint32(1 + g.intn(idRange[kind]))
+			id = g.wid(kind, 1+g.intn(idRange[kind]))
 		} else {
 			have := sortedRefs(x.Req, kind)
 			switch op {
 			case "create":
 				var free []uint32
 				for c := 1; c <= idRange[kind]; c++ {
-					if !x.Req[RuleRef{kind, uint32(c)}] {
-						free = append(free, uint32(c))
+					if !x.Req[RuleRef{kind, g.wid(kind, c)}] {
+						free = append(free, g.wid(kind, c))
 					}
 				}
 				if len(free) == 0 {
@@ -1234,7 +1293,9 @@ func (g *Gen) one() (Action, bool) {
 			func() (Action, bool) {
 				return Action{Op: "krep", KRep: []KRepItem{{SMF: mm.Idx, Slot: sl, URR: urrs[0], Cause: 2}}}, true
 			},
-			func() (Action, bool) { return Action{Op: "armans", Ans: &AnsIntent{Idx: 0, Mode: "ok"}, N: 3 + g.intn(3)}, true },
+			func() (Action, bool) {
+				return Action{Op: "armans", Ans: &AnsIntent{Idx: 0, Mode: "ok"}, N: 3 + g.intn(3)}, true
+			},
 			func() (Action, bool) {
 				if free < 0 {
 					return Action{Op: "send", SMF: mm.Idx, Msg: &MsgIntent{T: "del", Seq: g.seq(mm), Slot: sl}}, true
@@ -1300,7 +1361,9 @@ func (g *Gen) one() (Action, bool) {
 		}
 		// ... and more ticks fall due before the answer comes
 		g.pending = append(g.pending,
-			func() (Action, bool) { return Action{Op: "adv", Ms: int64(pick(g.rng, 1, 2, 3))*1000 + int64(g.intn(300))}, true },
+			func() (Action, bool) {
+				return Action{Op: "adv", Ms: int64(pick(g.rng, 1, 2, 3))*1000 + int64(g.intn(300))}, true
+			},
 			func() (Action, bool) { return Action{Op: "releaseps"}, true })
 		return Action{Op: "holdps"}, true
 	case "cycle":
